@@ -63,8 +63,8 @@ claim("C19", "A (auto-smt) + C (csmt)", "z3 regular-language theory vs the dumpe
       "Trusted: z3 RegLan (validated against a derivative matcher), as C04 for the circuits. Outside: both-marked intersections, ParserGadget, credential circuits.", "DESIGN 3 C19, 8")
 
 claim("C07", "C (csmt, normal forms)", "constraint rows extracted from the real Poseidon chip propagated to exact linear forms over hash-consed x^5 atoms; equality with the textbook permutation decided as ground coefficient queries (z3 || cvc5, perturbed twin must be sat) + plain engine-C SMT queries for the full rounds and the variable-length control cells; the real generic off-circuit code run on a symbolic field",
-      "Poseidon only: in-circuit permutation / fixed-length hash (<= 5 inputs) / sponge scripts / variable-length hash (MAX_LEN <= 4 quick, 6 thorough) equal the textbook sponge over the exported constants for ALL inputs; every state cell determined (no free cell); off-circuit permutation_cpu / HashCPU / SpongeCPU equal the same textbook forms; keygen structure = checked structure.",
-      "Trusted: textbook Poseidon written from the paper's definition over the constants the real code exports (that the constants are the Grain-LFSR output is not checked). NOT covered: SHA-256/512, RIPEMD-160, Keccak/SHA3, BLAKE2b (whole compressions beyond one query; sub-gadgets private).", "DESIGN 3 C07, 8")
+      "Poseidon: in-circuit permutation / fixed-length hash (<= 5 inputs) / sponge scripts / variable-length hash (MAX_LEN <= 4 quick, 6 thorough) equal the textbook sponge over the exported constants for ALL inputs; every state cell determined (no free cell); off-circuit permutation_cpu / HashCPU / SpongeCPU equal the same textbook forms; keygen structure = checked structure. Plus (part C07_P): padding and block selection of the variable-length SHA-256 gadget (final_block_len, compute_padding, merge_chunks, insert_in_array through hook H13) equal FIPS 180-4 5.1.1 per concrete length (M in {64,128}; thorough: every length), every padding byte determined.",
+      "Trusted: textbook Poseidon written from the paper's definition over the constants the real code exports (that the constants are the Grain-LFSR output is not checked). NOT covered: the compression functions of SHA-256/512, RIPEMD-160, Keccak/SHA3, BLAKE2b (whole compressions beyond one query), hence no digest-level claim for them; the update_state scheduling loop of the variable-length SHA-256 gadget.", "DESIGN 3 C07, 8")
 claim("C16", "K (Kani)", "Kani/CBMC harnesses executing the real decoders on symbolic byte buffers (every byte, length and stubbed-oracle answer symbolic), unwinding assertions on; failing harnesses replayed natively against the real public API",
       "Narrow: VerifyingKey::read_from_cs framing (buffers <= 8 bytes, toy field + stub commitment scheme) never panics and yields an index-safe key; the reader calls EvaluationDomain::new only inside its precondition and the integer prefix of new does not panic there; ZkStdLibArch::read (<= 18 bytes) lets through only configurations ZkStdLib::configure accepts; G1 point decoding respects the curve/subgroup oracles.",
       "Trusted: Kani/CBMC, struct-assembling stand-ins listed in evidence. Outside: ParamsKZG readers, zkir program decoding, constraint systems with gates in the framing harness, allocation sizes (no resource model), proofs (covered structurally under C03).", "DESIGN 3 C16, 8")
